@@ -142,7 +142,10 @@ Definition derive_from (h : handler) (chain : list deriv) : handler :=
   fold_left (fun h d => match d with DAttrs al => with_attrs h al | DGroup g => with_group h g end) chain h.
 Definition derive (chain : list deriv) : handler := derive_from new_handler chain.
 
-(** ** Handle *)
+(** ** Handle
+    time and level are written raw between quotes (AppendFormat / labelList); the guards
+    [len(h.preformatted) > 0] and [r.NumAttrs() > 0] only skip no-ops; the record is written with ONE
+    [Write] (the harness checks that on the real code). *)
 Inductive level := LDebug | LInfo | LWarn | LError | LFatal.
 Definition level_text (l : level) : list N :=
   match l with
